@@ -341,15 +341,25 @@ func classifyCrash(log, prop string) *harness.Failure {
 	}
 	idx, _ := strconv.Atoi(last[1])
 	seed, _ := strconv.ParseUint(last[2], 10, 64)
+	full := block
 	if len(block) > 3000 {
-		block = block[:3000]
+		// keep the head and the innermost frames of d2 (a stack overflow has hundreds of
+		// library frames above them)
+		block = block[:1800]
+		if i := strings.Index(full, "\noss.terrastruct.com/d2/"); i >= 1800 {
+			rest := full[i:]
+			if len(rest) > 1200 {
+				rest = rest[:1200]
+			}
+			block += "\n...\n" + rest
+		}
 	}
 	if scope := crashScope[prop]; len(scope) > 0 {
 		// A check that claims a slice of its property counts a crash only when the
 		// innermost frame of d2 is in the code of that slice (the file:line follows the
 		// function line).
 		in := false
-		lines := strings.Split(block, "\n")
+		lines := strings.Split(full, "\n")
 		for i, l := range lines {
 			if strings.HasPrefix(strings.TrimSpace(l), "oss.terrastruct.com/d2/") && i+1 < len(lines) {
 				for _, sc := range scope {
@@ -847,6 +857,9 @@ func doReplay(bin, runDir string, baseEnv []string, prop, path string) int {
 	res, err := replayOnce(bin, runDir, baseEnv, rf, "user")
 	if err != nil {
 		fatal2("replay failed: %v", err)
+	}
+	if res == nil {
+		fatal2("the replay's process ended without a result (a crash outside the code this check covers?)")
 	}
 	for _, l := range res.Trace {
 		fmt.Println("  " + l)
